@@ -317,8 +317,15 @@ def transforms(name, c, rng):
     if name in ("spike_test", "rate_of_change_test", "flat_line_test", "attenuated_signal_test"):
         out.append(("value shift", with_(xs=_shift_list(c["xs"], cv)), "same"))
         out.append(("negation", with_(xs=_neg_list(c["xs"])), "same"))
+    # an offset far above the data's resolution (all exact in float64: values are k/64 of small magnitude):
+    # an intermediate result narrowed to single precision, or a tolerance relative to the magnitude, shows here
+    big = F(rng.choice([2 ** 24, 2 ** 30 + 1, -(2 ** 33), 101325 * 1024]))
+    if name in ("spike_test", "rate_of_change_test", "flat_line_test") or \
+            (name == "attenuated_signal_test" and c.get("check") == "range"):
+        out.append(("large value shift", with_(xs=_shift_list(c["xs"], big)), "same"))
     if name == "density_inversion_test":
         out.append(("value shift", with_(rho=_shift_list(c["rho"], cv)), "same"))
+        out.append(("large value shift", with_(rho=_shift_list(c["rho"], big)), "same"))
     if name == "spike_test":
         out.append(("reversal", with_(xs=list(reversed(c["xs"]))), "reverse"))
     if name in ("rate_of_change_test", "speed_test"):
@@ -515,13 +522,15 @@ def carrier_transform(data_carrier, time_carrier, span_kind):
     return tr, applied
 
 
-def c15_failures(name, ad, c, rng, full=False):
+def c15_failures(name, ad, c, rng, full=False, data_only=False):
     """flags under every carrier == flags under the base carrier (float64 ndarray / datetime64[ns])"""
     base, _ = ad.impl(c)
     fails, n_eval = [], 0
     combos = [(dc, None, None) for dc in DATA_CARRIERS] + [(None, tc, None) for tc in TIME_CARRIERS] + \
              [(None, None, "list"), (None, None, "tuple")]
     combos.append((rng.choice(DATA_CARRIERS), rng.choice(TIME_CARRIERS), rng.choice(["list", "tuple"])))
+    if data_only:
+        combos = [(dc, None, None) for dc in DATA_CARRIERS]
     if not full:
         combos = rng.sample(combos, 8)
     for dc, tc, sk in combos:
@@ -539,6 +548,66 @@ def c15_failures(name, ad, c, rng, full=False):
                           "carrier": {"data": dc, "time": tc, "spans": sk},
                           "clause": f"flags differ when the same series is given as data={dc} time={tc} spans={sk}"})
     return n_eval, fails
+
+
+EPS = F(1, 2 ** 30)
+
+
+def fine_variant(name, c):
+    """-> the case with every limit moved by 2^-30 towards 'stricter' (exact in float64 and in Q, far below
+    the resolution of single precision near the data): a value sitting exactly on a limit is then strictly
+    beyond it - unless the comparison is carried out in the precision of a narrower carrier.  None: no variant."""
+    d = copy.deepcopy(c)
+
+    def mv(v, delta):
+        return None if v is None else core.fr(F(v) + delta)
+    if name == "gross_range_test":
+        if len(c["fail"]) != 2 or (c["suspect"] is not None and len(c["suspect"]) != 2):
+            return None
+        lo, hi = sorted(F(x) for x in c["fail"])
+        if hi - lo < 4 * EPS:
+            return None
+        d["fail"] = [core.fr(lo + EPS), core.fr(hi - EPS)]
+        if c["suspect"] is not None:
+            a, b = sorted(F(x) for x in c["suspect"])
+            if b - a < 4 * EPS:
+                return None
+            d["suspect"] = [core.fr(a + EPS), core.fr(b - EPS)]
+        return d
+    if name == "valid_range_test":
+        if c["kind"] != "float":
+            return None
+        d["lo"], d["hi"] = mv(c["lo"], EPS), mv(c["hi"], -EPS)
+        return d
+    if name in ("spike_test", "density_inversion_test"):
+        sign = -1 if name == "spike_test" else 1
+        for key in ("st", "ft"):
+            v = _thr(c[key])
+            if v is not None and (sign > 0 or v >= EPS):
+                d[key] = core.fr(v + sign * EPS)
+        return d
+    if name == "rate_of_change_test":
+        if F(c["thr"]) < EPS:
+            return None
+        d["thr"] = core.fr(F(c["thr"]) - EPS)
+        return d
+    if name == "location_test":
+        if c["bbox"] is None or len(c["bbox"]) != 4 or "shape_lon" in c:
+            return None
+        b = [F(x) for x in c["bbox"]]
+        if b[2] - b[0] < 4 * EPS or b[3] - b[1] < 4 * EPS:
+            return None
+        d["bbox"] = [core.fr(b[0] + EPS), core.fr(b[1] + EPS), core.fr(b[2] - EPS), core.fr(b[3] - EPS)]
+        return d
+    if name == "flat_line_test":
+        d["tol"] = core.fr(F(c["tol"]) + EPS)
+        return d
+    if name == "attenuated_signal_test":
+        if c.get("check") != "range":
+            return None
+        d["st"], d["ft"] = core.fr(F(c["st"]) + EPS), core.fr(F(c["ft"]) + EPS)
+        return d
+    return None
 
 
 # ------------------------------------------------------------------ shared driver pieces
